@@ -12,6 +12,9 @@ PATS = ["{pycalver}", "{semver}", "v{year}{month}{build}{release}", "{year}{mont
         "{year}.{doy_short}.{PATCH}", "{MAJOR}.{MINOR}.{PATCH}-{tag}", "v{MAJOR}.{MM}.{PPP}", "{calver}{build}{release}", "{year}-{month}-{dom}.{bid}",
         "{yyyy}.{BID}-{release_tag}", "{year}.{month_short}.{MINOR}", "v{year}.{quarter}.{PATCH}", "{MAJOR}.{MINOR}.{PATCH}", "{semver}{release}",
         "rel-{year}{month}{build}", "{year}{month}.{PATCH}"]
+# the derived search patterns ({pep440_version} in a file pattern is rewritten to one of these according to the version pattern): they are rendered and searched for,
+# never read back as versions
+DERIVED = ["{pep440_pycalver}", "{pep440_version}", "{year}{month}.{BID}{pep440_tag}", "{year}.{BID}{pep440_tag}", 'version="{pep440_pycalver}"', "pkg-{pep440_version}.tar.gz"]
 
 
 def parse_pat(s):
@@ -46,6 +49,17 @@ def _rt(job):
     except Exception as ex:  # pylint:disable=broad-except
         valid, sb, again = False, {"bad": True}, [0]
     return dict(ev="rt1", P=parse_pat(pat), v=state(v), text=glue.cp(t), valid=valid, back=sb, again=again, dbg="%s %s" % (pat, t), pat=pat)
+
+
+def _derived(job):
+    """a derived search pattern: what the legacy renderer writes must be found IN FULL by the pattern compiled from the same text"""
+    pat, date, kw = job
+    from bumpver import v1version, v1patterns
+    v = mk(date, **kw)
+    t = v1version.format_version(v, pat)
+    rx = v1patterns.compile_pattern("{pycalver}", pat).regexp
+    m = rx.search(t)
+    return dict(ev="derived1", P=parse_pat(pat), v=state(v), text=glue.cp(t), accepted=bool(m and m.group(0) == t), dbg="%s tag=%s -> %s" % (pat, kw["tag"], t), pat=pat)
 
 
 def _incr(job):
@@ -130,8 +144,9 @@ def run(ctx):
     # ---- design
     days = [dt.date(y, m, dd) for y in ctx.pick((2024,), (2000, 2024, 2050, 2099)) for m in ctx.pick((1, 12), (1, 2, 12)) for dd in ctx.pick((1, 13), (1, 13, 28))]
     gen = glue.gen_module("Gen_C20", dict(GenPatterns=[parse_pat(p) for p in PATS], GenDays=set(d.toordinal() for d in days),
-                                          GenBids={tuple(glue.cp(b)) for b in ("0001", "0999", "1000", "9998", "12345")}, GenTags={"final", "beta", "rc"}))
-    res = tlc.run(tlc.module_text("mc/MC_C20.tla"), "INIT Init\nNEXT Next\nINVARIANT LegacyConsistent\nCHECK_DEADLOCK FALSE\n", name="MC_C20", workers=16,
+                                          GenBids={tuple(glue.cp(b)) for b in ("0001", "0999", "1000", "9998", "12345")}, GenTags={"final", "beta", "rc"},
+                                          GenDerived=[parse_pat(p) for p in DERIVED]))
+    res = tlc.run(tlc.module_text("mc/MC_C20.tla"), "INIT Init\nNEXT Next\nINVARIANT LegacyConsistent\nINVARIANT DerivedAccepted\nCHECK_DEADLOCK FALSE\n", name="MC_C20", workers=16,
                   extra_files={"Gen_C20.tla": gen}, timeout=3400, xmx="12g")
     ctx.add_design(res, "MC_C20 %d legacy patterns x %d dates x 5 build ids x 3 tags x 64 flag sets" % (len(PATS), len(days)))
     if res.violation:
@@ -145,6 +160,8 @@ def run(ctx):
         return dt.date(rng.randrange(2000, 2099), rng.randrange(1, 13), rng.randrange(1, 29)) if rng.random() < 0.8 else rng.choice([dt.date(2084, 4, 13), dt.date(2024, 2, 29), dt.date(2000, 12, 31), dt.date(2021, 1, 1)])
     jobs = [(PATS[i % len(PATS)], rdate(), kw()) for i in range(ctx.pick(4000, 200000))]
     events = drive.pmap(_rt, jobs, hooks=False, chunksize=200)
+    djobs = [(DERIVED[i % len(DERIVED)], rdate(), dict(kw(), tag=["final", "alpha", "beta", "rc", "dev", "post"][(i // len(DERIVED)) % 6])) for i in range(ctx.pick(720, 20000))]
+    events += drive.pmap(_derived, djobs, hooks=False, chunksize=200)
     ijobs = []
     for i in range(ctx.pick(4000, 200000)):
         pat = PATS[i % len(PATS)]
@@ -164,7 +181,7 @@ def run(ctx):
     ctx.count("chains", len(cjobs))
     for i, e in enumerate(events):
         e["id"] = i + 1
-    for k in ("rt1", "incr1"):
+    for k in ("rt1", "incr1", "derived1"):
         ctx.count("events_" + k, sum(1 for e in events if e["ev"] == k))
     bumped = sum(1 for e in events if e["ev"] == "incr1" and e["out"][0] != 0)
     ctx.count("bumped", bumped)
